@@ -191,11 +191,8 @@ class Monitor(object):
         if dom[0] != 'in':
             ctx.count('unjudged.grade-' + dom[1])
             return
-        try:
-            t = attach.original(self.a.parse_hms)(perf)
-        except Exception:
-            return
-        if not isinstance(t, (int, float)) or not t > 0:
+        t = own_hms(perf)          # the oracle's own reading of the performance, not the library's parser
+        if t is None or not t > 0:
             return
         case = {'fn': 'wma_age_grade', 'gender': gender, 'age': age, 'event': event, 'perf': perf, 'year': year}
         if not out.ok:
@@ -346,6 +343,25 @@ def ages_for(first, last, tier):
     cand = [first, first + 0.5, first + 1, 30, 34.5, 35, 50, 72.5, last - 1, last - 0.5, last, last + 0.5, last + 1, last + 20,
             99.5, 100, 100.5, 101, 104.5, 105, 109.5, 110, 110.5, 111, 120]        # absolute ages shared by both table years
     return sorted(set(c for c in cand if first <= c <= last + 20), key=float)
+
+
+def own_hms(perf):
+    """seconds of a performance: a number, or text of 1-3 fields separated by ':' or ';' read sexagesimally (each field a plain
+    decimal number, whatever its size: 127:43.95 is 127 minutes); None for anything else"""
+    if isinstance(perf, bool):
+        return None
+    if isinstance(perf, (int, float)):
+        return perf
+    if not isinstance(perf, str):
+        return None
+    import re
+    fields = perf.strip().replace(';', ':').split(':')
+    if not 1 <= len(fields) <= 3 or not all(re.match(r'^[0-9]+(\.[0-9]*)?$', f) for f in fields):
+        return None
+    t = 0.0
+    for f in fields:
+        t = t * 60 + float(f)
+    return t
 
 
 def table_shape(mon, ctx):
